@@ -45,6 +45,14 @@ theorem freeBegin_false_owned {g : Ghost} {t b : Nat} (h : g.owned b = true) :
     (freeBegin false g t b).1.nextSerial = g.nextSerial := by
   unfold freeBegin; simp [h]
 
+theorem freeBegin_true_owned {g : Ghost} {t b : Nat} (h : g.owned b = true) :
+    (∀ i, (freeBegin true g t b).1.owned i = (g.owned i && !(g.owned i && decide (g.serial i ≤ g.serial b)))) ∧
+    (freeBegin true g t b).1.double = g.double ∧
+    (freeBegin true g t b).1.illegal = g.illegal ∧
+    (freeBegin true g t b).1.serial = g.serial ∧
+    (freeBegin true g t b).1.nextSerial = g.nextSerial := by
+  unfold freeBegin; simp [h]
+
 theorem allocDone_none (g : Ghost) (t : Nat) (pb : Bool) : (allocDone g t pb none).1 = g := rfl
 
 theorem allocDone_some (g : Ghost) (t : Nat) (pb : Bool) (b : Nat) :
